@@ -225,7 +225,8 @@ func c18Exec(run *ev.Run, cfg elConfig, hist []string) (string, bool) {
 			return "DIVERGED:" + strings.Join(hist, " "), false
 		}
 	}
-	return m.key(vtime.Offset()), clean
+	// scalar and slice fields of the logger itself are part of the key (maps are not rendered: their content is what the model mirrors)
+	return m.key(vtime.Offset()) + "|" + hiddenState(l, vtime.Now()), clean
 }
 
 func opClass(op string) string {
